@@ -98,6 +98,8 @@ class Adapter(object):
             priority=5, buffer_id=c, actions=ab))
       self.bind.pop(c, None)
       r = {"emitted": self._emitted()}
+      # an error reply saying the buffer is unknown / empty is not an emission (C13 decides on replies)
+      msgs = [m for m in msgs if not (m["type"] == rb.ERROR and m["etype"] == 1 and m["code"] in (7, 8))]
       if msgs:
         r["msgs"] = [m["name"] for m in msgs]
       return r
